@@ -913,6 +913,31 @@ def is_len_plus_encoded(fa, op, enc_block, wconst):
     return has_enc and has_len
 
 
+def _kept_by_predicate(crate, fa, t):
+    """`item.as_ref().map_or(true, ..)` inside the predicate closure of `filter` / `take_while`:
+    the item is only looked at through a borrow, an error item answers `true`, so it is kept (or
+    the iteration continues) and whoever consumes the items still sees the error."""
+    o = fa.origin(t["args"][0])
+    if not (o[0] == "call" and any(strip_generics(x).endswith(("Result::as_ref", "Result::as_deref")) for x in callee_paths(o[2]))):
+        return False
+    k = op_const(t["args"][1]) if len(t["args"]) > 1 else None
+    if not (k is not None and k.get("ty") == "bool" and k.get("int") == 1):
+        return False
+    par = fa.fn.j.get("closure_of")
+    if not par or par not in crate.fns or not crate.fns[par].body:
+        return False
+    pfa = FnA(crate.fns[par])
+    for b0, i0, s0 in pfa.stmts():
+        rv0 = s0.get("rv") or {}
+        if rv0.get("k") == "agg" and rv0.get("agg") == "closure" and rv0.get("closure") == fa.fn.path:
+            cl = s0["lhs"]["l"]
+            for b1, t1 in pfa.calls():
+                if any((op_place(a) or {}).get("l") == cl for a in t1["args"][1:]):
+                    nm1 = {strip_generics(x).rsplit("::", 1)[-1] for x in callee_paths(t1)}
+                    return bool(nm1 & {"filter", "take_while"})
+    return False
+
+
 def errprop_rule(ctx, fn_pred, label, cfgs=("A", "B"), floor=10):
     """Every fallible call (Result of DecodeError / io::Error / VibratoError) in the selected
     functions is consumed by `?` or returned; never dropped, `.ok()`-ed or defaulted."""
@@ -933,6 +958,8 @@ def errprop_rule(ctx, fn_pred, label, cfgs=("A", "B"), floor=10):
                 ps = [strip_generics(x) for x in callee_paths(t)]
                 if any("Try::branch" in x or "from_residual" in x for x in ps):
                     continue
+                if any(x.endswith(("Result::as_ref", "Result::as_mut", "Result::as_deref")) for x in ps):
+                    continue        # a borrowed view of a Result: what is done with it is judged below
                 n += 1
                 dest = t["dest"]
                 ok = False
@@ -997,6 +1024,12 @@ def errprop_rule(ctx, fn_pred, label, cfgs=("A", "B"), floor=10):
                 pl = op_place(t["args"][0]) if t["args"] else None
                 ty = fa.fn.locals[pl["l"]]["ty"] if pl else ""
                 if not any(e in ty for e in ERR_TYS):
+                    continue
+                if nm == "map_or" and _kept_by_predicate(crate, fa, t):
+                    ctx.ob("ERRPROP", "%s|%s|view:%s" % (cfg, p, nm), True, fa.loc(b),
+                           "%s: a borrowed view of the item is tested and an error item passes the "
+                           "test (default true): it stays in the iteration and is reported by its "
+                           "consumer" % p)
                     continue
                 ctx.ob("ERRPROP", "%s|%s|discard:%s" % (cfg, p, nm), False, fa.loc(b),
                        "%s: an error value (%s) is discarded with `.%s()`: the failure (unreadable "
